@@ -19,7 +19,7 @@ RULE = ("the full product {std::vector, list, deque, map, std::array, built-in a
 def run(tier, replay=None):
     run_ = verdict.Run(PROP, tier, LEVEL, replay_of=replay)
     import shutil
-    tags = ["gasan"] if tier == "quick" else ["gasan", "casan"]
+    tags = ["gasan", "casan"]
     if shutil.which("valgrind"):
         tags = tags + ["memcheck"]     # the uninstrumented build under valgrind memcheck (uninitialised values)
     maxlen = 5 if tier == "quick" else 64
